@@ -245,6 +245,164 @@ pub fn make_w3c_values(vals: &[(String, String)]) -> anoncreds::data_types::w3c:
 
 pub fn c15(eng: &mut Engine, rng: &mut Rng, thorough: bool, out: &mut Out) -> Cases {
     let mut cases = vec![];
+    // the base64url layer of every proof value (ops b64_encode / b64_decode, model Base64): byte strings of every length 0..=48 and
+    // random longer ones; texts: every string of length <= 2 over the alphabet plus the usual intruders, the last symbol of valid
+    // texts replaced by every symbol (unused low bits), padding appended, intruders inserted, real proof values
+    {
+        use anoncreds::verif_hooks::{base64_decode, base64_encode};
+        let dec = |t: &str| -> Value { match base64_decode(t) { Ok(b) => json!(b), Err(_) => json!({"err": true}) } };
+        let mut byte_strings: Vec<Vec<u8>> = vec![];
+        for len in 0..=48usize { for _ in 0..(if thorough { 12 } else { 3 }) { byte_strings.push((0..len).map(|_| rng.below(256) as u8).collect()); } }
+        for b in [0u8, 255, 0xfb, 0xff] { for len in 1..=4 { byte_strings.push(vec![b; len]); } }
+        for _ in 0..(if thorough { 300 } else { 30 }) { let len = 49 + rng.below(400) as usize; byte_strings.push((0..len).map(|_| rng.below(256) as u8).collect()); }
+        let mut texts: Vec<(String, String)> = vec![];
+        for b in &byte_strings {
+            let t = base64_encode(b);
+            // oracle (C15): what was written is read back
+            if base64_decode(&t).ok().as_ref() != Some(b) {
+                out.oracle_fail("a byte string is not read back from its base64 text", &json!({"fam":"c15.b64","sig":"","bytes":b}), &json!(t));
+            }
+            cases.push((json!({"op":"b64_encode","fam":"c15.b64","cls":format!("encode-len-mod3-{}", b.len() % 3),"bytes":b,"nt":true}), json!(t)));
+            texts.push(("valid".into(), t));
+        }
+        let alphabet: Vec<char> = "ABCDEFGHIJKLMNOPQRSTUVWXYZabcdefghijklmnopqrstuvwxyz0123456789-_".chars().collect();
+        let intruders: Vec<char> = "=+/ .\n\t,:;@[`{\u{0}\u{7f}é€".chars().collect();
+        let symbols: Vec<char> = alphabet.iter().chain(intruders.iter()).cloned().collect();
+        texts.push(("short".into(), String::new()));
+        for a in &symbols { texts.push(("short".into(), a.to_string())); for b in &symbols { texts.push(("short".into(), format!("{a}{b}"))); } }
+        let valid: Vec<String> = texts.iter().filter(|(c, t)| c == "valid" && !t.is_empty()).map(|(_, t)| t.clone()).collect();
+        for (i, t) in valid.iter().enumerate() {
+            if i % (if thorough { 1 } else { 4 }) != 0 { continue; }
+            let head: String = t.chars().take(t.chars().count() - 1).collect();
+            for c in &alphabet { texts.push(("last-symbol".into(), format!("{head}{c}"))); }
+            for pad in ["=", "==", "==="] { texts.push(("padded".into(), format!("{t}{pad}"))); }
+            let at = rng.below(t.len() as u64 + 1) as usize;
+            let c = intruders[rng.below(intruders.len() as u64) as usize];
+            texts.push(("intruder".into(), format!("{}{}{}", &t[..at], c, &t[at..])));
+            texts.push(("one-more".into(), format!("{t}{}", alphabet[rng.below(64) as usize])));
+            texts.push(("one-less".into(), head));
+        }
+        // proof values of real objects (after the multibase header)
+        for c in eng.cast.creds.iter().take(3) {
+            if let Some(v) = serde_json::to_value(&c.w3c).unwrap()["proof"][0]["proofValue"].as_str() { texts.push(("real-proof-value".into(), v[1..].to_string())); }
+        }
+        let mut accepted = 0u64;
+        for (cls, t) in texts {
+            let imp = dec(&t);
+            if imp.is_array() {
+                accepted += 1;
+                // oracle (C15): an accepted text is the text written for what it was read as
+                let bytes: Vec<u8> = serde_json::from_value(imp.clone()).unwrap();
+                if base64_encode(&bytes) != t {
+                    out.oracle_fail("an accepted base64 text is not the text written for the bytes it was read as (second spelling of one value)", &json!({"fam":"c15.b64","sig":"","text":t}), &imp);
+                }
+            }
+            out.count(&format!("c15:b64:{cls}:{}", if imp.is_array() { "accepted" } else { "refused" }));
+            cases.push((json!({"op":"b64_decode","fam":"c15.b64","cls":cls,"s":t,"nt":true}), imp));
+        }
+        out.count_n("c15:b64:accepted-texts", accepted);
+        // the tagged proof value (op codec_pv, model WirePv): msgpack sequences assembled from real payloads of the three kinds, integers
+        // in every msgpack integer format and other values; which kind the hand-written visitor accepts
+        {
+            use anoncreds::data_types::w3c::proof::{DataIntegrityProof, DataIntegrityProofValue};
+            let proof_obj = serde_json::to_value(&eng.cast.creds[0].w3c).unwrap()["proof"][0].clone();
+            let bytes_of = |p: &Value| -> Option<Vec<u8>> { p["proofValue"].as_str().and_then(|t| base64_decode(&t[1..]).ok()) };
+            let mut payloads: Vec<Option<Vec<u8>>> = vec![None, bytes_of(&proof_obj).map(|b| b[2..].to_vec()), None, None];
+            let plan = crate::scen::gen_honest_plan(rng, &eng.cast, true, false);
+            if let Ok(b) = eng.build_w3c(&plan) {
+                let pj = serde_json::to_value(&b.pres).unwrap();
+                payloads[2] = bytes_of(&pj["verifiableCredential"][0]["proof"]).map(|b| b[2..].to_vec());
+                payloads[3] = bytes_of(&pj["proof"]).map(|b| b[2..].to_vec());
+            }
+            if payloads[1..].iter().all(|p| p.is_some()) {
+                let int_bytes = |n: i64, wide: bool| -> Vec<u8> {
+                    if wide { let mut v = vec![0xd2]; v.extend_from_slice(&(n as i32).to_be_bytes()); v }
+                    else if (0..128).contains(&n) { vec![n as u8] } else if (-32..0).contains(&n) { vec![n as i8 as u8] }
+                    else { let mut v = vec![0xd2]; v.extend_from_slice(&(n as i32).to_be_bytes()); v }
+                };
+                let others: Vec<Vec<u8>> = vec![vec![0xc0], vec![0xa1, 0x31], vec![0xc3], vec![0xd3, 0, 0, 1, 0, 0, 0, 0, 0], vec![0xca, 0x3f, 0x80, 0, 0], vec![0x80], vec![0x90], vec![0xce, 0xff, 0xff, 0xff, 0xff], vec![0xcf, 0, 0, 0, 1, 0, 0, 0, 1]];
+                // (abstract item, bytes)
+                let mut seqs: Vec<(String, Vec<(Value, Vec<u8>)>)> = vec![];
+                let tags: Vec<i64> = vec![-2, -1, 0, 1, 2, 3, 4, 5, 127, 128, i32::MAX as i64, i32::MIN as i64];
+                for &t in &tags { for k in 1..=3usize { for wide in [false, true] {
+                    let ti = (json!({"int": t}), int_bytes(t, wide));
+                    let pk = (json!({"payload": k}), payloads[k].clone().unwrap());
+                    seqs.push(("tag-payload".into(), vec![ti.clone(), pk.clone()]));
+                    if t >= 1 && t <= 3 {
+                        seqs.push(("extra-element".into(), vec![ti.clone(), pk.clone(), (json!("other"), others[0].clone())]));
+                        seqs.push(("extra-element".into(), vec![ti.clone(), pk.clone(), pk.clone()]));
+                        seqs.push(("payload-first".into(), vec![pk.clone(), ti.clone()]));
+                    }
+                } }
+                    seqs.push(("tag-only".into(), vec![(json!({"int": t}), int_bytes(t, false))]));
+                    for o in &others { seqs.push(("tag-other".into(), vec![(json!({"int": t}), int_bytes(t, false)), (json!("other"), o.clone())])); }
+                }
+                seqs.push(("empty".into(), vec![]));
+                for o in &others { for k in 1..=3usize { seqs.push(("other-payload".into(), vec![(json!("other"), o.clone()), (json!({"payload": k}), payloads[k].clone().unwrap())])); } }
+                for _ in 0..(if thorough { 600 } else { 80 }) {
+                    if rng.chance(1, 2) {
+                        // mostly-valid stream: the written form, half of the time with one edit
+                        let k = 1 + rng.below(3) as usize;
+                        let mut items = vec![(json!({"int": k}), int_bytes(k as i64, rng.chance(1, 3))), (json!({"payload": k}), payloads[k].clone().unwrap())];
+                        if rng.chance(1, 2) {
+                            match rng.below(3) {
+                                0 => { let t = tags[rng.below(tags.len() as u64) as usize]; items[0] = (json!({"int": t}), int_bytes(t, rng.chance(1, 3))); }
+                                1 => { let k2 = 1 + rng.below(3) as usize; items[1] = (json!({"payload": k2}), payloads[k2].clone().unwrap()); }
+                                _ => items.push((json!("other"), others[rng.below(others.len() as u64) as usize].clone())),
+                            }
+                        }
+                        seqs.push(("random-edited".into(), items));
+                        continue;
+                    }
+                    let len = rng.below(4);
+                    let items = (0..len).map(|_| match rng.below(3) {
+                        0 => { let t = tags[rng.below(tags.len() as u64) as usize]; (json!({"int": t}), int_bytes(t, rng.chance(1, 3))) }
+                        1 => { let k = 1 + rng.below(3) as usize; (json!({"payload": k}), payloads[k].clone().unwrap()) }
+                        _ => (json!("other"), others[rng.below(others.len() as u64) as usize].clone()),
+                    }).collect();
+                    seqs.push(("random".into(), items));
+                }
+                for (cls, items) in seqs {
+                    let mut bytes = vec![0x90u8 | items.len() as u8];
+                    for (_, b) in &items { bytes.extend_from_slice(b); }
+                    let mut p = proof_obj.clone();
+                    p["proofValue"] = json!(format!("u{}", base64_encode(&bytes)));
+                    let imp = match serde_json::from_value::<DataIntegrityProof>(p) {
+                        Err(_) => json!({"err": true}),
+                        Ok(d) => match d.get_proof_value() { DataIntegrityProofValue::CredentialSignature(_) => json!(1), DataIntegrityProofValue::CredentialPresentation(_) => json!(2), DataIntegrityProofValue::Presentation(_) => json!(3) },
+                    };
+                    out.count(&format!("c15:pv-seq:{cls}:{}", if imp.is_number() { "accepted" } else { "refused" }));
+                    cases.push((json!({"op":"codec_pv","fam":"c15.b64","cls":format!("seq-{cls}"),"items":items.iter().map(|(a, _)| a.clone()).collect::<Vec<_>>(),"nt":true}), imp));
+                }
+            } else { out.count("c15:pv-seq:no-payloads"); }
+        }
+        // the multibase layer (op pv_decode, Base64.envelopeDecode): real proof objects whose proofValue text is respelled so that the
+        // bytes behind it are unchanged whenever the text is acceptable at all (the msgpack layer then cannot be what refuses)
+        for c in eng.cast.creds.iter().take(3) {
+            let proof = serde_json::to_value(&c.w3c).unwrap()["proof"][0].clone();
+            let Some(pv) = proof["proofValue"].as_str().map(|x| x.to_string()) else { continue };
+            let mut variants: Vec<(&str, String)> = vec![("as-written", pv.clone())];
+            for h in ["", "U", "z", "m", " "] { variants.push(("header", format!("{h}{}", &pv[1..]))); }
+            for pad in ["=", "==", "\n", " "] { variants.push(("trailing", format!("{pv}{pad}"))); }
+            let body = &pv[1..];
+            let unused_bits = match body.len() % 4 { 2 => 4, 3 => 2, _ => 0 };
+            if unused_bits > 0 {
+                let last = body.chars().last().unwrap();
+                let v = alphabet.iter().position(|x| *x == last).unwrap();
+                for low in 0..(1usize << unused_bits) {
+                    let w = (v >> unused_bits << unused_bits) | low;
+                    variants.push(("unused-bits", format!("u{}{}", &body[..body.len() - 1], alphabet[w])));
+                }
+            }
+            for (cls, t) in variants {
+                let mut p = proof.clone();
+                p["proofValue"] = json!(t);
+                let ok = serde_json::from_value::<anoncreds::data_types::w3c::proof::DataIntegrityProof>(p).is_ok();
+                out.count(&format!("c15:pv:{cls}:{}", if ok { "accepted" } else { "refused" }));
+                cases.push((json!({"op":"pv_decode","fam":"c15.b64","cls":format!("pv-{cls}"),"s":t,"nt":true}), json!({"accepted": ok})));
+            }
+        }
+    }
     let n = if thorough { 400 } else { 16 };
     for i in 0..n {
         let revocable = i % 2 == 1;
@@ -1571,7 +1729,7 @@ pub fn c11(eng: &mut Engine, rng: &mut Rng, thorough: bool, out: &mut Out) -> Ca
                             _ => {}
                         }
                         let cdg = json!({"id": cd_used.cid.0, "key": cdk, "attrs": cd_used.schema.attr_names.0});
-                        cases.push((json!({"op":"process_w3c","fam":"c11.process_w3c","cls":cls,"cd":cdg,"sig":sigw(true),"subject":sj(&given),"sig_proof_ok":true,"meta":mg,"holder":h,"nt":true}), json!(ok)));
+                        cases.push((json!({"op":"process_w3c","fam":"c11.process_w3c","cls":cls,"cd":cdg,"sig":sigw(true),"subject":sj(&given),"sig_proof_ok":true,"proof_doc":abs_proof_doc(&serde_json::to_value(&wc).unwrap()["proof"]),"meta":mg,"holder":h,"nt":true}), json!(ok)));
                     };
                     process_w("honest", &honest, &meta1, &m1, holder, di, Some(true), out, &mut cases);
                     {
@@ -1642,12 +1800,13 @@ pub fn c11(eng: &mut Engine, rng: &mut Rng, thorough: bool, out: &mut Out) -> Ca
                         let mut envelope = |cls: &str, c: &anoncreds::data_types::w3c::credential::W3CCredential, out: &mut Out, cases: &mut Cases| {
                             let mut c = c.clone();
                             let given: Vec<(String, V)> = c.credential_subject.0.iter().map(|(k, v)| (k.clone(), v.clone())).collect();
+                            let pdoc = abs_proof_doc(&serde_json::to_value(&c).unwrap()["proof"]);
                             let ok = w3c::prover::process_credential(&mut c, &meta1, &link, &d.cd, None).is_ok();
                             out.count(&format!("c11:process-w3c:{cls}:{}", if ok { "ok" } else { "rejected" }));
                             if ok {
                                 out.oracle_fail("holder accepted a W3C credential whose proof is not a credential signature under assertionMethod", &json!({"fam":"c11.process_w3c","sig":"","cls":cls}), &Value::Null);
                             }
-                            cases.push((json!({"op":"process_w3c","fam":"c11.process_w3c","cls":cls,"cd":cdg,"sig":sigw(true),"subject":sj(&given),"sig_proof_ok":false,"meta":m1,"holder":holder,"nt":true}), json!(ok)));
+                            cases.push((json!({"op":"process_w3c","fam":"c11.process_w3c","cls":cls,"cd":cdg,"sig":sigw(true),"subject":sj(&given),"sig_proof_ok":false,"proof_doc":pdoc,"meta":m1,"holder":holder,"nt":true}), json!(ok)));
                         };
                         // purpose flipped to the other legal value
                         let mut j = serde_json::to_value(&wc).unwrap();
